@@ -95,7 +95,9 @@ def run_case(spec, ctx):
     with ctx.lib("construct", feature=top):
         D = build.domain(E)
     params = build.params_points(prows)
-    with ctx.lib("bounding_box", feature=top + (f"|k{min(k, 2)}" if k else "")):
+    inner_transform = any(n["t"] in ("union", "cut", "isect", "product") and
+                          rg.has(n, lambda m: m["t"] in ("translate", "rotate")) for n in rg.walk(I))
+    with ctx.lib("bounding_box", feature=top + ("+transform" if inner_transform else "") + (f"|k{min(k, 2)}" if k else "")):
         with warnings.catch_warnings():
             warnings.simplefilter("ignore")
             box = D.bounding_box(params)
@@ -170,10 +172,14 @@ def run_case(spec, ctx):
             with warnings.catch_warnings():
                 warnings.simplefilter("ignore")
                 layer = NormalizationLayer(D)
-            pts = _ref_points(E, {}, gen, 80)
-            P = Points.from_coordinates({v: torch.tensor(pts[v], dtype=torch.float32) for v, _ in svars})
-            out = layer(P).as_tensor.double().numpy()
-        if np.max(np.abs(out)) > 1 + 1e-4:
+        pts = _ref_points(E, {}, gen, 80)
+        P = Points.from_coordinates({v: torch.tensor(pts[v], dtype=torch.float32) for v, _ in svars})
+        with ctx.lib("NormalizationLayer.forward", feature=top):
+            res = layer(P)
+        out = res.as_tensor.detach().double().numpy()
+        width = float(np.min(b[1::2] - b[0::2]))
+        # float32 coordinates carry an error of eps*scale, magnified by 2/width
+        if np.max(np.abs(out)) > 1 + 1e-4 + 1e-6 * tol["scale"] / max(width, 1e-9):
             ctx.violation("normalization", _blame(E, spec), f"NormalizationLayer maps a domain point to {np.max(np.abs(out)):.5f}")
     f = specs.features(E)
     rot_generic = False
